@@ -234,7 +234,7 @@ func (f *impFn) upd(lhs ast.Expr, val string, c *ictx) (string, string) {
 		if kt.k != "string" {
 			f.p.die(lhs, "map key type")
 		}
-		return f.upd(v.X, paren(xs)+".set "+paren(ks)+" "+paren(val), c)
+		return f.upd(v.X, parenImp(xs)+".set "+parenImp(ks)+" "+parenImp(val), c)
 	}
 	f.p.die(lhs, "assignment target outside the subset")
 	return "", ""
@@ -293,7 +293,7 @@ func (f *impFn) simple(s ast.Stmt, prev ast.Stmt, c *ictx) []string {
 					p.die(s, "map key type")
 				}
 				ns := names(xt.elem, tyBool)
-				return []string{"let (" + ns[0] + ", " + ns[1] + ") := " + paren(xs) + ".lookup " + paren(ks)}
+				return []string{"let (" + ns[0] + ", " + ns[1] + ") := " + parenImp(xs) + ".lookup " + parenImp(ks)}
 			}
 			if call, ok := v.Rhs[0].(*ast.CallExpr); ok {
 				if x, m, ok := f.hashCall(call, c); ok && m == "Write" && len(call.Args) == 1 {
@@ -307,7 +307,7 @@ func (f *impFn) simple(s ast.Stmt, prev ast.Stmt, c *ictx) []string {
 					ns := names(tyInt, tyErr)
 					root, nv := f.upd(x, tmp, c)
 					f.killGuards(exprText(x))
-					return []string{"let (" + tmp + ", (" + ns[0] + ", " + ns[1] + ")) := Hash.Write W " + paren(xs) + " " + paren(as),
+					return []string{"let (" + tmp + ", (" + ns[0] + ", " + ns[1] + ")) := Hash.Write W " + parenImp(xs) + " " + parenImp(as),
 						"let " + lname(root) + " := " + nv}
 				}
 			}
@@ -362,9 +362,9 @@ func (f *impFn) simple(s ast.Stmt, prev ast.Stmt, c *ictx) []string {
 				p.die(s, "copy(%v, %v)", dt, st)
 			}
 			if st.k == "string" {
-				ss = "bytesOfString " + paren(ss)
+				ss = "bytesOfString " + parenImp(ss)
 			}
-			root, nv := f.upd(call.Args[0], "copy "+paren(ds)+" "+paren(ss), c)
+			root, nv := f.upd(call.Args[0], "copy "+parenImp(ds)+" "+parenImp(ss), c)
 			f.killGuards(exprText(call.Args[0]))
 			return []string{"let " + lname(root) + " := " + nv}
 		}
@@ -373,14 +373,14 @@ func (f *impFn) simple(s ast.Stmt, prev ast.Stmt, c *ictx) []string {
 			var val string
 			switch {
 			case m == "Reset" && len(call.Args) == 0:
-				val = "Hash.Reset " + paren(xs)
+				val = "Hash.Reset " + parenImp(xs)
 			case m == "Write" && len(call.Args) == 1:
 				as, at := f.expr(call.Args[0], tyBytes, c)
 				if !at.eq(tyBytes) {
 					p.die(s, "Write argument")
 				}
 				c.uses.W = true
-				val = "(Hash.Write W " + paren(xs) + " " + paren(as) + ").1"
+				val = "(Hash.Write W " + parenImp(xs) + " " + parenImp(as) + ").1"
 			default:
 				p.die(s, "hash method %s as a statement", m)
 			}
@@ -744,7 +744,7 @@ func (f *impFn) rangeStmt(v *ast.RangeStmt, rest []ast.Stmt, k *kont, c *ictx, i
 	u := &iuses{}
 	const hole = "@@LOOPARGS@@"
 	cc := &ictx{inLoop: true, uses: u,
-		ret:  func(vals string) string { return "(" + st + ", some " + paren(vals) + ")" },
+		ret:  func(vals string) string { return "(" + st + ", some " + parenImp(vals) + ")" },
 		fall: func() string { return name + hole + " rest_ " + strings.Join(lnames(S), " ") }}
 	ss, sg := f.snap()
 	f.nonNil = map[string]bool{} // guards do not survive an iteration boundary
@@ -781,9 +781,9 @@ func (f *impFn) rangeStmt(v *ast.RangeStmt, rest []ast.Stmt, k *kont, c *ictx, i
 	c.uses.W = c.uses.W || u.W
 	c.uses.H = c.uses.H || u.H
 	f.popTo(depth0)
-	over := paren(xs)
+	over := parenImp(xs)
 	if byIndex {
-		over = "(List.range " + paren(xs) + ".length)"
+		over = "(List.range " + parenImp(xs) + ".length)"
 	}
 	callTxt := name + whArgs(*u) + roArgs + " " + over + " " + strings.Join(lnames(S), " ")
 	for _, s := range S {
